@@ -172,7 +172,7 @@ def check_ledger(mod, program, tol=2e-4):
                     scale = max(scale, abs(ts[n][k] * rate))
             if abs(tot) > tol * scale:
                 return 'period %d: FX net transactions valued in the numeraire sum to %r' % (k, tot)
-            if 'EXT_FX__NET_NUMERAIRE' in ts and abs(ts['EXT_FX__NET_NUMERAIRE'][k]) > tol * scale:
+            if not program.get('gold') and 'EXT_FX__NET_NUMERAIRE' in ts and abs(ts['EXT_FX__NET_NUMERAIRE'][k]) > tol * scale:
                 return 'period %d: numeraire position of the FX intermediary = %r' % (k, ts['EXT_FX__NET_NUMERAIRE'][k])
     return None
 
